@@ -669,6 +669,9 @@ func checkClusterNodesParser(c *Ctx, rule string) {
 		lineFns = append(lineFns, ffn)
 	}
 	whitelisted := func(a condAtom) string {
+		if a.cmp == nil {
+			return ""
+		}
 		// the number of fields / the number of parts of a split
 		if lc, ok := a.cmp.X.(*ssa.Call); ok && isBuiltin(lc, "len") {
 			if _, isC := constInt(a.cmp.Y); isC {
